@@ -277,7 +277,7 @@ fn directed(rep: &mut Report) {
 
 pub fn run(tier: Tier, seed: u64) -> MonOut {
     let saved = silence_stderr();
-    let n = tier.n(36, 700);
+    let n = tier.n(150, 3_000);
     let base = Rng::new(seed);
     let mut rep = Report::new();
     directed(&mut rep);
